@@ -284,6 +284,27 @@ func (g *Gen) amount(h *big.Int) []byte {
 		}
 		return v.Bytes()
 	}
+	if g.R.Intn(8) == 0 {
+		// numbers whose big-endian bytes happen to be a well-formed encoded token (field 2 = amount,
+		// optionally field 1 = type before it): a reader that guesses "number or payload?" from the
+		// bytes gets these wrong
+		shaped := [][]byte{
+			{0x12, 0x02, 0x00, 0x05},
+			{0x08, 0x01, 0x12, 0x02, 0x00, 0x07},
+			{0x12, 0x01, 0x00},
+			{0x12, 0x03, 0x00, 0x01, 0x00},
+			{0x12, 0x02, 0x00, byte(1 + g.R.Intn(255))},
+			{0x0a, 0x00},
+		}
+		return append([]byte{}, shaped[g.R.Intn(len(shaped))]...)
+	}
+	if g.R.Intn(10) == 0 {
+		// very long numbers (the codec has no bound): 512/513 bytes, 1 KB, 2000 bytes
+		b := make([]byte, []int{512, 513, 1024, 1025, 2000}[g.R.Intn(5)])
+		b[0] = byte(1 + g.R.Intn(255))
+		b[len(b)-1] = byte(g.R.Intn(256))
+		return b
+	}
 	switch g.R.Intn(9) {
 	case 0:
 		return []byte{}
@@ -382,6 +403,11 @@ func (g *Gen) callTypeFor(caller, dst []byte) int {
 		// world assumption: a contract that is not payable sends cross-shard only through
 		// asynchronous calls (its refund comes back as a callback)
 		return spec.CallAsync
+	}
+	if g.R.Intn(12) == 0 {
+		// call types this library does not know (the type is an open integer; a newer VM may send
+		// others): nothing is said about them, so they carry no exemption
+		return []int{4, 5, 17, 255, -1}[g.R.Intn(5)]
 	}
 	return g.R.Intn(4)
 }
